@@ -274,6 +274,15 @@ func runC10(c *Ctx) {
 	c.rule(P, "eff-writer", "EffectiveUID/EffectiveGID are stored only in HandleCall, from the AuthResult of the same request", 2)
 	c.rule(P, "aux-limit", "ParseAuthSysCredential rejects more than 16 auxiliary gids before allocating", 1)
 
+	// "undecodable AUTH_SYS bodies are denied": a length that wraps round in the credential decoder makes an
+	// undecodable body decode (borrowed from C13, restricted to what ParseAuthSysCredential reaches)
+	if pa := p.Fn("ParseAuthSysCredential"); pa != nil {
+		scope := p.reachableFrom([]*ssa.Function{pa})
+		noWrapScope = func(fn *ssa.Function) bool { return scope[rootFn(fn)] }
+		runNoWrapAs(c, P)
+		noWrapScope = nil
+	}
+
 	as := p.Fn("applySquashing")
 	va := p.Fn("ValidateAuthentication")
 	if as == nil || va == nil {
